@@ -72,8 +72,13 @@ def run(ctx):
         if len(ps) > cap:
             ps = ps[-cap // 2:] + rng.sample(ps[:-cap // 2], cap // 2)      # keep the large ones (generated last)
         jobs += [(fam, p) for p in ps]
-    replies = family_replies(ctx.model, jobs)
-    for (fam, p), reps in zip(jobs, replies):
+    def in_chunks(jobs, size=40):
+        # the replies of a chunk (whole clause lists) are dropped before the next chunk is asked for
+        for k in range(0, len(jobs), size):
+            part = jobs[k:k + size]
+            for job, reps in zip(part, family_replies(ctx.model, part)):
+                yield job, [r[0] if (not is_error(r) and isinstance(r, list) and len(r) == 3) else None for r in reps]
+    for (fam, p), nums_all in in_chunks(jobs):
         for fc in (CNF, OPB):
             r = outcome(fam['build'], p, fc)
             if r[0] != 'ok':
@@ -95,7 +100,7 @@ def run(ctx):
                 ctx.violation('counterexample', '%s (%s): %d variables, the documentation promises %d' % (fam['name'], fc.__name__, n, doc),
                               dict(input=dict(family=fam['name'], params=p, formula_class=fc.__name__), numvar=n, documented=doc), True, site='family-numvar', cls=fam['name'])
                 continue
-            nums = [r[0] for r in reps if not is_error(r) and isinstance(r, list) and len(r) == 3]
+            nums = [x for x in nums_all if x is not None]
             rep = [nums[0]] if nums else None
             if nums and n not in nums:
                 ctx.violation('correspondence', '%s: number of variables %d differs from the family model (%s)' % (fam['name'], n, rep[0]),
